@@ -17,10 +17,15 @@ type Opt struct {
 	Verbose  int  `json:"verbose"`       // -1: not passed, 0/1
 	Color    bool `json:"color"`
 	Unicode  bool `json:"unicode"`
+	AT       int  `json:"array_truncate,omitempty"` // 0: not passed (d: 50, dd/dv/ddv: 0)
 }
 
 func (o Opt) String() string {
-	return fmt.Sprintf("{line_bytes:%d,addrbase:%d,sizebase:%d,display_bytes:%d,verbose:%d,color:%v,unicode:%v}", o.LB, o.AddrBase, o.SizeBase, o.DB, o.Verbose, o.Color, o.Unicode)
+	at := ""
+	if o.AT > 0 {
+		at = fmt.Sprintf(",array_truncate:%d", o.AT)
+	}
+	return fmt.Sprintf("{line_bytes:%d,addrbase:%d,sizebase:%d,display_bytes:%d,verbose:%d,color:%v,unicode:%v%s}", o.LB, o.AddrBase, o.SizeBase, o.DB, o.Verbose, o.Color, o.Unicode, at)
 }
 
 // JQ is the option object handed to hd/d/dd/dv/ddv.
@@ -31,6 +36,9 @@ func (o Opt) JQ() map[string]any {
 	}
 	if o.Verbose >= 0 {
 		m["verbose"] = o.Verbose == 1
+	}
+	if o.AT > 0 {
+		m["array_truncate"] = o.AT
 	}
 	return m
 }
